@@ -720,9 +720,13 @@ func (c *e2Client) reader(ctx context.Context) {
 			cutAfter = 1 + r.choice(fmt.Sprintf("client/%d/cutafter", c.idx), 12)
 		}
 		w := &e2StreamWriter{hdr: http.Header{}}
+		inc := n.incA.Load()
 		w.on = func(m *robust.Message) {
 			if m.Type == robust.Ping || cutAfter == 0 {
 				return // after the cut nothing reaches the client any more
+			}
+			if !n.aliveA.Load() || n.incA.Load() != inc {
+				return // the process is dead: whatever its zombie still writes reaches nobody
 			}
 			c.mu.Lock()
 			c.got = append(c.got, *m)
@@ -740,7 +744,6 @@ func (c *e2Client) reader(ctx context.Context) {
 				}
 			}
 		}
-		inc := n.incA.Load()
 		// a watchdog cuts the connection when the node dies (the TCP connection would break)
 		go func() {
 			for cctx.Err() == nil {
